@@ -115,6 +115,16 @@ def r2_fifo(ctx):
                             why = '; a push_back lies between the pop and the put-back'
             r.check(ok, key, f.loc(bi), 'push_front on Stream.%s in %s is a put-back of the element popped from the same queue%s' % (which, core.short(name), why))
     r.floor(n, 7, 'push_front sites on stream queues')
+    # appending to a stream's send queue happens only where user frames are accepted (queue_frame, send_data); anywhere else it re-orders frames
+    apps = set()
+    for name, f in F.fns.items():
+        if '::tests::' in name:
+            continue
+        for bi, t in f.calls_to(DEQ + 'push_back'):
+            if has_field(f.expr_of_op(t['a'][0]), STREAM, 'pending_send'):
+                apps.add(name)
+                r.check(name in (PRIO + 'queue_frame', PRIO + 'send_data'), 'append|pending_send|' + name, f.loc(bi), 'push_back on Stream.pending_send in %s' % core.short(name))
+    r.check(PRIO + 'queue_frame' in apps, 'append|queue_frame', '', 'Prioritize::queue_frame appends to Stream.pending_send')
 
 
 READERS = {
